@@ -18,7 +18,7 @@ func init() {
 			"(4) the accept loop hands a connection to the manager only under ConnCount() < maxConn and otherwise closes it; every accepted connection goes to exactly one of the two; (5) loopSend dequeues with PopAnyway and writes each item to the connection before the next dequeue; Session.Close only closes the send queue (so queued bytes are flushed before the connection closes). " +
 			"NOT decided: termination of both goroutines and byte delivery under every order of faults (needs the peer and the OS); the accept race between ConnCount() and Inc of concurrent accepts (single accept loop assumed).",
 		Assumptions: []string{"one accept loop per manager", "sync.Once, q.Q (C12) contracts"},
-		Floors:      map[string]int{"C16.exit-always": 2, "C16.exit-effects": 1, "C16.count-writers": 2, "C16.accept-guard": 1, "C16.flush": 2},
+		Floors:      map[string]int{"C16.exit-always": 2, "C16.exit-effects": 1, "C16.count-writers": 2, "C16.accept-guard": 1, "C16.flush": 3},
 		Run:         runC16,
 	})
 }
@@ -316,6 +316,38 @@ func runC16(c *Ctx) {
 
 	// (4) accept guard
 	c.checkAcceptGuard(cfg)
+
+	// (5a) Send enqueues the caller's bytes at the back of the send queue (order of Sends = order on the wire)
+	if fn := c.mustFn(rel, "(*Session).Send"); fn != nil {
+		traces, _ := c.Trace(fn, cfg)
+		ok, n := true, 0
+		for _, t := range traces {
+			if t.End != EndReturn {
+				continue
+			}
+			var add *Event
+			adds := 0
+			for _, e := range t.Events {
+				if e.Kind == EvCall && e.Method != nil && strings.HasPrefix(e.Method.Name(), "Add") {
+					add = e
+					adds++
+				}
+			}
+			n++
+			good := adds == 1 && add.Method.Name() == "AddReq" && len(add.Args) == 2 && add.Args[1].strip().Key() == t.Params[1].Key() && t.Ret[0].Key() == add.Res.Key()
+			if good {
+				_, isQ := isInitOfField(add.Args[0], sendQ)
+				good = isQ
+			}
+			if !good && ok {
+				ok = false
+				c.violated("C16.flush", "(*stcp.Session).Send", fn.Pos(), "Send does not append exactly the caller's bytes to the back of the send queue and return the queue's answer: bytes are reordered (prior add), duplicated, or a refused send is reported as accepted", c.witness(t, len(t.Events)-1)...)
+			}
+		}
+		if ok && n > 0 {
+			c.holds("C16.flush", "(*stcp.Session).Send", fn.Pos(), "sendQ.AddReq(bs)")
+		}
+	}
 
 	// (5b) Close only closes the send queue
 	if fn := c.mustFn(rel, "(*Session).Close"); fn != nil {
